@@ -21,7 +21,7 @@ from vlib.fakefs import FakeFS
 PROPERTY = "C50"
 LEVEL = "model_checking"
 ENCODED = ["twisted.python.lockfile:FilesystemLock.lock", "twisted.python.lockfile:FilesystemLock.unlock"]
-BOUNDS = {"quick": {"procs": 2, "steps": 14}, "thorough": {"procs": 3, "steps": 18}}
+BOUNDS = {"quick": {"procs": 2, "steps": 14}, "thorough": {"procs": 3, "steps": 12}}
 B = {}
 BOUNDS_TEXT = ("`procs` processes, each running lock() once and, if it returned True, later unlock(); every "
                "interleaving of their symlink/readlink/kill/rmlink calls up to `steps` calls in total (a 2 "
